@@ -40,6 +40,7 @@ func (x *Worker) Do(fn func(stop <-chan struct{})) (done func()) {
 	if x == nil || fn == nil {
 		panic(errors.New(`bigbuff.Worker invalid input`))
 	}
+	verifAt("worker.do.lock", x, 0)
 	x.mu.Lock()
 	defer x.mu.Unlock()
 	if x.stop == nil && x.done == nil {
@@ -55,6 +56,7 @@ func (x *Worker) Do(fn func(stop <-chan struct{})) (done func()) {
 }
 func (x *Worker) wait() {
 	for {
+		verifAt("worker.wait.lock", x, 0)
 		x.mu.Lock()
 		wg := x.wg
 		if wg == nil {
@@ -62,14 +64,19 @@ func (x *Worker) wait() {
 		}
 		x.wg = nil
 		x.mu.Unlock()
+		verifAt("worker.wait.wgwait", x, 0)
 		wg.Wait()
 	}
+	verifAt("worker.wait.stop", x, 0)
 	close(x.stop)
+	verifAt("worker.wait.recv", x, 0)
 	<-x.done
 	x.stop, x.done = nil, nil
 	x.mu.Unlock()
 }
 func (x *Worker) do(fn func(stop <-chan struct{})) {
+	verifAt("worker.do.start", x, 0)
 	fn(x.stop)
+	verifAt("worker.do.close", x, 0)
 	close(x.done)
 }
